@@ -267,3 +267,11 @@ PPR = [(WPR, "ppar_model"), (WPR, "ppar_final")]
 for pid, items in (("C07", PPR), ("C06", PPR[:1])):
     if pid in PLAN:
         add_imports(pid, WHI + ["ModelCipher", "ModelCtr", "ProofsCtr", "WholeProc", "WholeCtr", "WholeCtrModel", "WholePar"]); PLAN[pid] += items
+
+# SIMD CTR encryption as whole functions, vector block function as a procedure call (WholeCtrVec.v, WholeCtrVecModel.v)
+WCV = "WholeCtrVec.v"; WCVM = "WholeCtrVecModel.v"
+VCT = [(WCVM, "vctr_model_gen"), (WCVM, "incK_spec"), (WCVM, "incs_4_4_16_closed"), (WCV, "vctr_final")]
+VCT = [x for x in VCT if x[1] != "incs_4_4_16_closed"]
+for pid, items in (("C05", VCT), ("C06", VCT[:1])):
+    if pid in PLAN:
+        add_imports(pid, WHI + ["ModelCipher", "ModelCtr", "WholeProc", "WholeCtr", "WholeCtrModel", "WholeCtrVec", "WholeCtrVecModel"]); PLAN[pid] += items
